@@ -98,7 +98,7 @@ class Check(CheckBase):
     def generate(self):
         quick = self.tier == 'quick'
         cases = []
-        for i in range(96 if quick else 15000):
+        for i in range(96 if quick else 45000):
             r = random.Random(f'C16/{self.seed}/{i}')
             cases.append({'seed': r.randrange(1 << 30), 'kind': 'S3' if i % 5 == 4 else 'S3C',
                           'host': ['s3.vf.test', 'minio.vf.test:9000', 'S3.VF.Test', 's3.vf.test:443', 'localhost:80'][i % 5] if i % 3 == 0 else 's3.vf.test',
